@@ -668,7 +668,7 @@ pub fn run_which(ctx: &Ctx, which: Which) -> Report {
             "leap_table",
             "earliest_latest_through_a_reused_buffer",
         ],
-        Which::C17 => vec!["k=0", "k=1", "k=2", "k>=3", "buffer_empty", "buffer_smaller_than_k", "buffer_larger_than_k", "stale_slot_preserved", "error_case"],
+        Which::C17 => vec!["k=0", "k=1", "k=2", "k>=3", "buffer_empty", "buffer_smaller_than_k", "buffer_larger_than_k", "stale_slot_preserved", "error_case", "error_while_an_entry_is_built", "error_after_an_earlier_result", "error_on_the_first_result"],
     };
     if let Err(e) = crate::mon::c03::self_tests() {
         rep.inconclusive.push(format!("model self-test failed: {}", e));
@@ -758,6 +758,70 @@ pub fn run_which(ctx: &Ctx, which: Which) -> Report {
             }
             l.op_n("DateTime::find / find_n (error cases)", calls);
             l.distinct_hash(zone_hash(&z, -1));
+        });
+        // wl 7: searches that fail *while an entry is being built*: a forward table transition within an offset of either
+        // end of the supported range, so that one side of its gap entry has no calendar date; the searched local time
+        // itself is a valid date inside the gap (or at its edges), optionally shown once before by an earlier type.
+        // The allocating search fails with the range error whatever it found before; so must the buffer-based one,
+        // for every buffer length (a buffer that is already full is no reason to skip the conversion that fails)
+        run_cases(ctx, &mut rep, 7, ctx.n(3000, 60_000), |l, rng, _| {
+            let top = rng.chance(1, 2);
+            let x = if top { cal::max_unix() - rng.range(0, 7200) } else { cal::min_unix() + rng.range(0, 7200) };
+            let (a, b2) = if top {
+                let a = rng.range(-600, 600);
+                (a, a + rng.range(1, 7200))
+            } else {
+                let b2 = rng.range(-600, 600);
+                (b2 - rng.range(1, 7200), b2)
+            };
+            let dd = rng.range(7400, 200_000);
+            let with_earlier = rng.chance(1, 2);
+            let mut types = vec![TypeSpec::new(a as i32, false, Some("AAA")), TypeSpec::new(b2 as i32, true, Some("BBB")), TypeSpec::new((a + dd) as i32, false, Some("EEE"))];
+            let mut transitions: Vec<(i64, usize)> = vec![];
+            if with_earlier {
+                // EEE before the first transition: it shows the searched local time dd seconds earlier
+                types.swap(0, 2);
+                transitions.push((x - dd + 7300, 2));
+                transitions.push((x, 1));
+            } else {
+                transitions.push((x, 1));
+            }
+            let rule = match rng.below(3) {
+                0 => Some(RuleSpec::Fixed(TypeSpec::new(b2 as i32, true, Some("BBB")))),
+                1 => {
+                    transitions.push((x.saturating_add(rng.range(1, 1_000_000)), if with_earlier { 2 } else { 0 }));
+                    None
+                }
+                _ => None,
+            };
+            let z = ZoneSpec { transitions, types, leaps: Default::default(), rule };
+            let b = match build(&z) {
+                Ok(b) => b,
+                Err(e) => {
+                    l.harness_errors.push(format!("C17 wl 7: generated zone refused: {} {}", e, z.describe()));
+                    return;
+                }
+            };
+            let tz = b.tz.as_ref();
+            let zm = z.model();
+            let mut stale = vec![None; 6];
+            let mut calls = 0;
+            // stale content first: an ordinary search far from the edges
+            calls += check_search(l, which, &zm, tz, &Search::from_civil_seconds(1_000_000_000, 11, false), &mut stale);
+            for c in [x + a, x + a + rng.range(0, b2 - a - 1), x + b2 - 1, x + b2, x + a - 1] {
+                if c < cal::min_unix() || c > cal::max_unix() {
+                    continue;
+                }
+                let q = Search::from_civil_seconds(c, 13, false);
+                let r = facade::find(q.y, q.mo, q.d, q.h, q.mi, q.s, q.ns, tz);
+                if r.is_err() {
+                    l.class("error_while_an_entry_is_built");
+                    l.class(if with_earlier { "error_after_an_earlier_result" } else { "error_on_the_first_result" });
+                }
+                calls += 1 + check_search(l, which, &zm, tz, &q, &mut stale);
+            }
+            l.op_n("DateTime::find / find_n (range ends)", calls);
+            l.distinct_hash(zone_hash(&z, -2));
         });
     }
     if which != Which::C17 {
